@@ -66,3 +66,14 @@ PROPS["C15"] = {
 }
 
 NOT_APPLICABLE = {}
+
+# Additional properties live in checkconf.d/CNN.py, each defining CONF = {...} (and optionally NA = "reason").
+import glob as _glob, os as _os
+for _f in sorted(_glob.glob(_os.path.join(_os.path.dirname(_os.path.abspath(__file__)), "checkconf.d", "C*.py"))):
+    _ns = {"rapid": rapid}
+    exec(open(_f).read(), _ns)
+    _pid = _os.path.basename(_f)[:-3]
+    if "CONF" in _ns:
+        PROPS[_pid] = _ns["CONF"]
+    if "NA" in _ns:
+        NOT_APPLICABLE[_pid] = _ns["NA"]
